@@ -499,6 +499,8 @@ Proof.
   - (* ExtAlpha *)
     inversion W; subst. inversion TM; subst. inversion M; subst.
     eapply (setter_SInv b' pend' s n _ _ [] []); eauto; try reflexivity. exact (si_coh _ _ _ _ H).
+  - (* Rollback *)
+    discriminate.
 Qed.
 
 Lemma run_SInv ops : forall b b' pend s s' n,
